@@ -64,7 +64,7 @@ impl Group for C10Sim {
          add/set/remove with good, bad and mixed entries, keysend (new, duplicate hash, over the velocity limit), new/forget channel, heartbeat, \
          block add/remove (good and bad), restart; non-trivial = at least one refused (Err) request after at least one accepted state-changing request"
     }
-    fn budget(&self, tier: Tier) -> usize { if tier == Tier::Quick { 400 } else { 6000 } }
+    fn budget(&self, tier: Tier) -> usize { if tier == Tier::Quick { 1200 } else { 8000 } }
     fn model_line(&self, op: &str) -> Option<String> { node_model_line(op) }
     fn corpus(&self) -> Vec<Vec<String>> {
         let c = |s: &str| s.split('|').map(|x| x.to_string()).collect::<Vec<_>>();
